@@ -1,3 +1,162 @@
-import GambitV.Model.Cluster
+import GambitV.Lemmas.Cluster
+
+/-!
+# C17 — the tree built from a linkage matrix: leaves, branch lengths, ultrametricity
+
+`Model/Cluster.lean` follows `gambit.cluster.linkage_to_bio_tree`: the clade list starts with one
+leaf per label; every linkage row sets the branch lengths of its two children to
+`row height − child height` and appends the new clade; the tree is the last clade.
+
+For a well-formed linkage (`ValidLinkage`, `Lemmas/Cluster.lean`: what SciPy guarantees — `n − 1`
+rows, row `r` merges two distinct existing clusters `< n + r`, every cluster but the last is merged
+exactly once, heights non-negative and monotone) the tree
+
+* is the unfolding of the linkage (`tree_from_linkage`),
+* has exactly the labels `0 … n−1` as leaves, each once (`leaves_perm`),
+* has no negative branch length (`branch_nonneg`),
+* is ultrametric: every leaf is at distance = root height from the root (`ultrametric`), and at every
+  internal node every leaf below is at distance = the height of the linkage row that created the
+  node, so the path between leaves of its two children is twice that height
+  (`path_eq_twice_merge_height`).
+
+Helper lemmas (the loop invariant) live in `Lemmas/Cluster.lean`.  Core Lean only.
+-/
 namespace GambitV.C17
+open GambitV
+
+/-- The tree exists and is the clade of the last cluster; the loop invariant holds for the final list. -/
+theorem tree_exists {n : Nat} {link : List LinkRow} (h : ValidLinkage n link = true) :
+    linkageToTree n link = some ((buildClades n link).getD (n + link.length - 1) (.leaf 0 0)) ∧
+      BuildInv n link link.length (buildClades n link) := by
+  obtain ⟨hn, _, hrows, _⟩ := ValidLinkage.spec h
+  have inv := buildInv_final n link hrows
+  exact ⟨linkageToTree_eq n link hn inv.length_eq, inv⟩
+
+/-- 0. The tree is the unfolding of the linkage from its last cluster (index `2n − 2`). -/
+theorem tree_from_linkage {n : Nat} {link : List LinkRow} (h : ValidLinkage n link = true) :
+    ∃ t, linkageToTree n link = some t ∧ t.FromLink n link (n + link.length - 1) := by
+  obtain ⟨hn, _, _, _⟩ := ValidLinkage.spec h
+  obtain ⟨ht, inv⟩ := tree_exists h
+  exact ⟨_, ht, inv.fromLink _ (by omega)⟩
+
+/-- 9. The leaves of the tree are exactly the labels `0 … n−1`, each once. -/
+theorem leaves_perm {n : Nat} {link : List LinkRow} (h : ValidLinkage n link = true) :
+    ∃ t, linkageToTree n link = some t ∧ t.leaves.Perm (List.range n) := by
+  obtain ⟨hn, _, _, hperm⟩ := ValidLinkage.spec h
+  obtain ⟨ht, inv⟩ := tree_exists h
+  exact ⟨_, ht, root_leaves_perm n link hn inv hperm⟩
+
+/-- 10. No branch below the root has negative length. -/
+theorem branch_nonneg {n : Nat} {link : List LinkRow} (h : ValidLinkage n link = true) :
+    ∃ t, linkageToTree n link = some t ∧ t.nonneg = true := by
+  obtain ⟨hn, _, _, _⟩ := ValidLinkage.spec h
+  obtain ⟨ht, inv⟩ := tree_exists h
+  exact ⟨_, ht, inv.nonneg _ (by omega)⟩
+
+/-- 9b/10b. The same with the tree given. -/
+theorem leaves_perm' {n : Nat} {link : List LinkRow} (h : ValidLinkage n link = true) (t : Clade)
+    (ht : linkageToTree n link = some t) : t.leaves.Perm (List.range n) := by
+  obtain ⟨t', ht', hp⟩ := leaves_perm h
+  rw [ht] at ht'
+  cases ht'
+  exact hp
+
+theorem branch_nonneg' {n : Nat} {link : List LinkRow} (h : ValidLinkage n link = true) (t : Clade)
+    (ht : linkageToTree n link = some t) : t.nonneg = true := by
+  obtain ⟨t', ht', hp⟩ := branch_nonneg h
+  rw [ht] at ht'
+  cases ht'
+  exact hp
+
+/-- The tree is ultrametric at every node, with the root at the height of the last linkage row. -/
+theorem tree_ultra {n : Nat} {link : List LinkRow} (h : ValidLinkage n link = true) :
+    ∃ t, linkageToTree n link = some t ∧ t.Ultra ((link.getLast?.map (·.height)).getD 0) := by
+  obtain ⟨hn, _, _, _⟩ := ValidLinkage.spec h
+  obtain ⟨t, ht, hf⟩ := tree_from_linkage h
+  refine ⟨t, ht, ?_⟩
+  have := hf.ultra
+  rw [nodeHeight_root n link hn] at this
+  exact this
+
+/-- 11. All leaves are equidistant from the root: at the height of the last linkage row. -/
+theorem ultrametric {n : Nat} {link : List LinkRow} (h : ValidLinkage n link = true) :
+    ∃ t, linkageToTree n link = some t ∧
+      ∀ p ∈ t.depths, p.2 = (link.getLast?.map (·.height)).getD 0 := by
+  obtain ⟨t, ht, hu⟩ := tree_ultra h
+  exact ⟨t, ht, hu.depths⟩
+
+/-- 11b. The same with the tree given. -/
+theorem ultrametric' {n : Nat} {link : List LinkRow} (h : ValidLinkage n link = true) (t : Clade)
+    (ht : linkageToTree n link = some t) :
+    ∀ p ∈ t.depths, p.2 = (link.getLast?.map (·.height)).getD 0 := by
+  obtain ⟨t', ht', hu⟩ := ultrametric h
+  rw [ht] at ht'
+  cases ht'
+  exact hu
+
+/-- 12. For every internal node `node a b _` of the tree there is a linkage row (the one that created
+it: `a`, `b` are the unfoldings of its two clusters) such that every leaf of `a` and every leaf of
+`b` is at distance exactly that row's height from the node; hence the path between a leaf of `a`
+and a leaf of `b` has length twice the merge height. -/
+theorem path_eq_twice_merge_height {n : Nat} {link : List LinkRow} (h : ValidLinkage n link = true) :
+    ∃ t, linkageToTree n link = some t ∧
+      ∀ a b x, Clade.node a b x ∈ t.subs →
+        ∃ (r : Nat) (row : LinkRow), link[r]? = some row ∧
+          a.FromLink n link row.left ∧ b.FromLink n link row.right ∧
+          (∀ p ∈ a.depths, p.2 + a.len = row.height) ∧
+          (∀ q ∈ b.depths, q.2 + b.len = row.height) ∧
+          (∀ p ∈ a.depths, ∀ q ∈ b.depths, (p.2 + a.len) + (q.2 + b.len) = 2 * row.height) := by
+  obtain ⟨t, ht, hf⟩ := tree_from_linkage h
+  refine ⟨t, ht, ?_⟩
+  intro a b x hs
+  obtain ⟨j, hj⟩ := hf.subs _ hs
+  have hu := hj.ultra
+  obtain ⟨h1, h2, h3, h4, _, _⟩ := hj
+  rw [nodeHeight_ge link h1] at hu
+  have hlt : j - n < link.length := by omega
+  have hget : link.getD (j - n) ⟨0, 0, 0⟩ = link[j - n] := by
+    rw [List.getD_eq_getElem?_getD, List.getElem?_eq_getElem hlt]; rfl
+  rw [hget] at hu h3 h4
+  obtain ⟨ha, hb⟩ := hu.node_depths
+  refine ⟨j - n, link[j - n], List.getElem?_eq_getElem hlt, h3, h4, ha, hb, ?_⟩
+  intro p hp q hq
+  have := ha p hp
+  have := hb q hq
+  omega
+
+/-- every sub-clade is ultrametric (a recursive reading of `Clade.Ultra`) -/
+theorem subs_ultra {n : Nat} {link : List LinkRow} (h : ValidLinkage n link = true) :
+    ∃ t, linkageToTree n link = some t ∧ ∀ s ∈ t.subs, ∃ j, s.Ultra (nodeHeight n link j) := by
+  obtain ⟨t, ht, hf⟩ := tree_from_linkage h
+  refine ⟨t, ht, ?_⟩
+  intro s hs
+  obtain ⟨j, hj⟩ := hf.subs s hs
+  exact ⟨j, hj.ultra⟩
+
+/-! ### 13. Non-vacuity -/
+
+def exLink : List LinkRow := [⟨2, 3, 25⟩, ⟨0, 1, 50⟩, ⟨4, 5, 75⟩]
+
+example : ValidLinkage 4 exLink = true := by decide
+
+example : linkageToTree 4 exLink =
+    some (.node (.node (.leaf 2 25) (.leaf 3 25) 50) (.node (.leaf 0 50) (.leaf 1 50) 25) 0) := by decide
+
+example : (linkageToTree 4 exLink).map Clade.depths = some [(2, 75), (3, 75), (0, 75), (1, 75)] := by decide
+
+example : (linkageToTree 4 exLink).map Clade.leaves = some [2, 3, 0, 1] := by decide
+
+example : (linkageToTree 4 exLink).map Clade.nonneg = some true := by decide
+
+/-- a single observation: no rows, the tree is the leaf -/
+example : ValidLinkage 1 [] = true ∧ linkageToTree 1 [] = some (.leaf 0 0) := by decide
+
+/-- rejected: a cluster merged twice; a child that does not exist yet; a height inversion -/
+example : ValidLinkage 3 [⟨0, 1, 10⟩, ⟨0, 2, 20⟩] = false := by decide
+example : ValidLinkage 3 [⟨0, 3, 10⟩, ⟨1, 2, 20⟩] = false := by decide
+example : ValidLinkage 3 [⟨0, 1, 20⟩, ⟨3, 2, 10⟩] = false := by decide
+
+/-- without monotone heights the conversion does produce a negative branch -/
+example : (linkageToTree 3 [⟨0, 1, 20⟩, ⟨3, 2, 10⟩]).map Clade.nonneg = some false := by decide
+
 end GambitV.C17
